@@ -113,10 +113,17 @@ Fixpoint conv_all (tps : list tslot) (l : list tslot) (outs : list A.out) : opti
   | _, _ => None
   end.
 
-(* None: the real builder raises (more actuals than formals of a non-variadic schema) *)
-Definition promote_call (c : tcall) : option (list operand) :=
+(* None: the real builder raises (more actuals than formals of a non-variadic schema; with named = false a
+   literal outside the cached path, e.g. a list mixing int and float).  `named` is C12's variant flag of the
+   builder (true after repo fix 4f6059b: uncached constants get a generated name instead of raising); for PLAIN
+   literals (C12's plainb: a scalar or a homogeneous list whose ir.tensor dtype is the Python-type default) both
+   variants agree, and the theorems are stated for plain literals, as C12's builder_eq_spec is. *)
+Definition lit_plain (t : toperand) : bool := match t with TLit t => A.plainb (tl_lit t) | _ => true end.
+Definition all_plain (c : tcall) : bool := forallb lit_plain (tc_args c).
+
+Definition promote_call (named : bool) (c : tcall) : option (list operand) :=
   let args := map arg_of (tc_args c) in
-  match A.positions (tc_schema c) (List.length args), A.promote_builder (tc_schema c) args with
+  match A.positions (tc_schema c) (List.length args), A.promote_builder_v named (tc_schema c) args with
   | A.OK ps, A.OK outs => let tps := combine (tc_args c) ps in conv_all tps tps outs
   | _, _ => None
   end.
@@ -147,8 +154,8 @@ Definition operand_agree (der obs : operand) : bool :=
   end.
 
 (* the operands observed on the real builder are the ones derived from the C12 specification *)
-Definition lits_by_specb (c : tcall) (obs : list operand) : bool :=
-  match promote_call c with
+Definition lits_by_specb (named : bool) (c : tcall) (obs : list operand) : bool :=
+  match promote_call named c with
   | Some ops => Trace.list_eqb operand_agree ops obs
   | None => false
   end.
@@ -171,16 +178,16 @@ Definition schema_at (name : string) (opset : N) : option A.schema :=
 
 (* a case: operator name, since_version reported by onnx.defs (cross-check), typed operands, observed operands *)
 Definition lit_case := (string * N * list toperand * list operand)%type.
-Definition lit_case_ok (opset : N) (c : lit_case) : bool :=
+Definition lit_case_ok (named : bool) (opset : N) (c : lit_case) : bool :=
   let '(name, since, targs, obs) := c in
   match schema_at name opset with
-  | Some s => N.eqb (A.s_ver s) since && A.schema_okb s && lits_by_specb (TC s targs) obs
+  | Some s => N.eqb (A.s_ver s) since && A.schema_okb s && lits_by_specb named (TC s targs) obs
   | None => false
   end.
-Fixpoint lits_disagreeing (opset : N) (i : nat) (cs : list lit_case) : list nat :=
+Fixpoint lits_disagreeing (named : bool) (opset : N) (i : nat) (cs : list lit_case) : list nat :=
   match cs with
   | [] => []
-  | c :: t => ((if lit_case_ok opset c then [] else [i]) ++ lits_disagreeing opset (S i) t)%list
+  | c :: t => ((if lit_case_ok named opset c then [] else [i]) ++ lits_disagreeing named opset (S i) t)%list
   end.
 
 (* ---------------------------------------------------------------- traces whose every call is derived *)
@@ -207,8 +214,8 @@ Definition slots_of (c : tcall) : A.result (list A.slot) :=
 
 (* the operand list is what the C12 model derives for a well-typed call of a well-formed schema *)
 Definition derived (args : list operand) : Prop :=
-  exists c slots, A.schema_okb (tc_schema c) = true /\ slots_of c = A.OK slots /\ A.uniform slots /\
-                  promote_call c = Some args.
+  exists named c slots, A.schema_okb (tc_schema c) = true /\ slots_of c = A.OK slots /\ A.uniform slots /\
+                        all_plain c = true /\ promote_call named c = Some args.
 
 (* ---------------------------------------------------------------- the typed reading of the operands *)
 Section TRead.
